@@ -82,6 +82,29 @@ def j1(tier, seed, cov):
                         "ok": r.ok}
         vlib.log("[C10] J1 %-12s states=%d pairs=%d exported=%d %.1fs %s" % (
             cfg, r.distinct, n_pairs, got, time.time() - t0, "ok" if r.ok else "COUNTEREXAMPLE"))
+    # derived manifests (split / merge / reorder / slightly alter): exhaustive small, simulation large
+    t0 = time.time()
+    r = vlib.tlc(SPEC, "MCDerive", "MC_drv_small.cfg", timeout=900)
+    vlib.tlc_require_ok(r, "J1 MC_drv_small")
+    configs["MC_drv_small"] = {"distinct_states": r.distinct, "generated": r.generated, "wall_s": round(time.time() - t0, 1), "ok": True}
+    states += r.distinct
+    transitions += r.generated
+    t0 = time.time()
+    n_sim = 12 if tier == "quick" else 150
+    r = vlib.tlc(SPEC, "MCDerive", "MC_drv_sim.cfg", workers=1, timeout=1500, simulate=dict(num=n_sim, depth=40, seed=seed))
+    vlib.tlc_require_ok(r, "J1 MC_drv_sim (simulation)")
+    m = re.search(r"(\d+) states checked", r.out)
+    sim_states = int(m.group(1)) if m else 0
+    got = 0
+    for p in _exported(r.out):
+        if p not in seen:
+            seen.add(p)
+            pairs.append(p)
+            got += 1
+    configs["MC_drv_sim"] = {"simulation": True, "behaviours": n_sim, "states_checked": sim_states, "pairs_exported": got,
+                             "wall_s": round(time.time() - t0, 1), "ok": True}
+    vlib.log("[C10] J1 derive: small exhaustive %d states; simulation %d behaviours, %d states, %d pairs exported" % (
+        configs["MC_drv_small"]["distinct_states"], n_sim, sim_states, got))
     # the version gate
     t0 = time.time()
     r = vlib.tlc(SPEC, "MCGate", "MC_gate.cfg", timeout=900)
@@ -121,8 +144,10 @@ def j2(vh, pairs, work, seed, n_gate, n_hash, perms):
     return inp, obs, json.load(open(summ))
 
 
-def j3(trace_path, timeout=1500):
-    """TLC judges the observations. Returns (bad: [(invariant, line)], drift: [line], result)."""
+J3_CHUNK = 45000   # observations per TLC run (a 55k-line trace costs TLC about 6 GB)
+
+
+def _j3_one(trace_path, timeout):
     for attempt in (1, 2):
         r = vlib.tlc(SPEC, "ManifestMatchTrace", "ManifestMatchTrace.cfg", workers=4, timeout=timeout, heap="10g",
                      copy_files={"trace.ndjson": trace_path}, extra_args=["-continue"])
@@ -145,6 +170,49 @@ def j3(trace_path, timeout=1500):
     return bad, drift, r
 
 
+def j3(trace_path, work=None, timeout=1500):
+    """TLC judges the observations. Returns (bad: [(invariant, line)], drift: [line], stats).
+    Large traces are judged in chunks; every hash observation goes into the first chunk because the two hash
+    invariants speak about all of them together (they are evaluated once, on line 1 of a chunk)."""
+    raw = open(trace_path).read().splitlines()
+    idx_hash = [i for i, l in enumerate(raw) if l.startswith('{"kind":"hash"')]
+    hs = set(idx_hash)
+    idx_rest = [i for i in range(len(raw)) if i not in hs]
+    if len(raw) <= J3_CHUNK or work is None:
+        chunks = [list(range(len(raw)))]
+    else:
+        n_chunks = -(-len(raw) // J3_CHUNK)
+        size = -(-len(raw) // n_chunks)            # balanced chunks
+        chunks, cur = [], list(idx_hash)
+        for i in idx_rest:
+            if len(cur) >= size:
+                chunks.append(cur)
+                cur = []
+            cur.append(i)
+        if cur:
+            chunks.append(cur)
+    bad, drift, judged, wall = [], [], 0, 0.0
+    for n, ch in enumerate(chunks):
+        path = trace_path
+        if len(chunks) > 1:
+            path = os.path.join(work, "chunk%d.ndjson" % n)
+            with open(path, "w") as fh:
+                for i in ch:
+                    fh.write(raw[i] + "\n")
+        b, d, r = _j3_one(path, timeout)
+        for inv, l in b:
+            # the hash invariants report line 1 of their chunk: keep 1 (they are explained from all hash lines)
+            bad.append((inv, l if inv.startswith("Hash") else ch[l - 1] + 1))
+        drift += [ch[l - 1] + 1 for l in d]
+        judged += r.distinct
+        wall += r.wall_s
+        if len(chunks) > 1:
+            vlib.log("[C10] J3 chunk %d/%d: %d observations, %d flagged, %.1fs" % (n + 1, len(chunks), len(ch), len(b), r.wall_s))
+    if judged != len(raw):
+        raise vlib.Inconclusive("J3 judged %d observations of %d" % (judged, len(raw)))
+    return bad, sorted(drift), {"states": judged, "wall_s": round(wall, 1), "chunks": len(chunks)}
+
+
 def _strip_idx(path):
     return re.sub(r"\[\d+\]", "", path).lstrip(".")
 
@@ -164,7 +232,9 @@ def _hash_offenders(lines):
             unstable.append((odd, xs))
     for hid, xs in by_hid.items():
         if len({x["kid"] for x in xs}) > 1:
-            muts = sorted({_strip_idx(x["path"]) + ":" + x["op"] for x in xs if x["variant"] == "mut"})
+            base_kids = {x["kid"] for x in xs if x["variant"] != "mut"}   # a mutant may legitimately BE another base
+            muts = sorted({_strip_idx(x["path"]) + ":" + x["op"] for x in xs
+                           if x["variant"] == "mut" and (not base_kids or x["kid"] not in base_kids)})
             insensitive.append((muts or ["two-bases"], xs))
     return unstable, insensitive
 
@@ -245,7 +315,7 @@ def selftest(lines, work):
     with open(path, "w") as fh:
         for x in pick:
             fh.write(json.dumps(x) + "\n")
-    bad, _drift, _r = j3(path, timeout=600)
+    bad, _drift, _r = j3(path, None, timeout=600)
     got = set(bad)
     missing = [w for w in want if w not in got]
     return {"ran": True, "corruptions": len(want), "rejected": len(want) - len(missing),
@@ -268,7 +338,7 @@ def run(pid, tier, seed, replay):
         n_gate, n_hash, perms = (150, 120, 2) if tier == "quick" else (1500, 1200, 4)
     pairs_file, obs, summ = j2(vh, pairs, work, seed, n_gate, n_hash, perms)
     lines = [json.loads(l) for l in open(obs)]
-    bad, drift, r3 = j3(obs)
+    bad, drift, r3 = j3(obs, work)
     violations = violations_from(bad, lines, pairs_file)
     if cex and not violations:
         raise vlib.Inconclusive("J1 produced %d model-only counterexample(s) that the real code does not reproduce: "
@@ -298,7 +368,7 @@ def run(pid, tier, seed, replay):
         "hash_field_sites": summ.get("sites"), "hash_opaque_fields": summ.get("opaque") or [],
         "drift_steps": len(drift),
         "binding_selftest": st,
-        "j3": {"states": r3.distinct, "wall_s": round(r3.wall_s, 1)},
+        "j3": r3,
         "samples": [json.loads(p) for p in pairs[len(pairs) // 3: len(pairs) // 3 + 3]],
         "seeds": [seed],
     })
